@@ -24,6 +24,13 @@ type Family struct {
 	// so that a family can enumerate a bounded space before it samples.
 	GenAt func(idx uint64, g *rand.Rand, tier string) any
 	Exec  func(e *Env, p any)
+	// ShrinkKeys: top-level keys of the parameter object that the minimiser may
+	// reduce (arrays: drop elements; numbers: make smaller). Everything else -
+	// in particular the programs inside a call - is left alone, so that a
+	// minimised scenario stays inside the domain the family's oracles are sound
+	// for (e.g. deleting the receive loop of a client program would turn a valid
+	// workload into a caller that never reads: flow control, not a defect).
+	ShrinkKeys []string
 	// Faulty families inject faults; the rest are fault-free run classes.
 	Faulty bool
 	// FaultKinds lists the fault kinds this family can inject.
